@@ -515,6 +515,14 @@ Proof.
   - rewrite abs_dir. cbn [g_fmod tg_fmod fst3 fst snd]. split; [exact Hwf|]. rewrite abs_dir. split; reflexivity.
 Qed.
 
+Lemma gr_fseg first pos seg pr : grefines (g_fseg first pos seg pr) (tg_fseg first pos seg).
+Proof.
+  gfile.
+  - cbn [g_fseg tg_fseg]. destruct (first || seg_dirty seg); cbn [fst3 fst snd abs];
+      (split; [apply wf_file|]); split; reflexivity.
+  - rewrite abs_dir. cbn [g_fseg tg_fseg fst3 fst snd]. split; [exact Hwf|]. rewrite abs_dir. split; reflexivity.
+Qed.
+
 Lemma gr_kind : grefines g_kind tg_kind.
 Proof.
   gfile. rewrite abs_dir. cbn [g_kind tg_kind fst3 fst snd is_dirnode].
@@ -719,7 +727,7 @@ Proof.
   { intros nd E. eapply tnav_getnode_wfn; [apply wf_abs; exact Hw2|exact E]. }
   nav_step (sdir ++ [sname]) g_getnode tg_getnode gr_getnode o2 Hw2 o3 x3 Hw3 Et3.
   try rewrite Et3 in Hnd. cbn [snd] in Hnd.
-  destruct x3 as [| | | | |nd]; try (cbn [fst snd]; split; [exact Hw3|split; reflexivity]).
+  destruct x3 as [| | | | |nd|]; try (cbn [fst snd]; split; [exact Hw3|split; reflexivity]).
   nav_step (ddir ++ [dname]) g_kind tg_kind gr_kind o3 Hw3 o4 x4 Hw4 Et4.
   set (kind := match x4 with RStat isd _ _ _ => Some isd | _ => None end).
   destruct (match kind with Some true => (ddir ++ [dname], sname) | _ => (ddir, dname) end) as [fdir fname].
@@ -753,6 +761,29 @@ Proof.
   - cbn [fst snd]. split; [exact Hwf|split; reflexivity].
 Qed.
 
+(** a descriptor session: every flush / the close is a path walk + flushUp *)
+Lemma fd_refines acts : forall p sync fr pos cur o outs, wf o ->
+  wf (fst (m_fd p sync fr pos cur acts o outs)) /\
+  abs (fst (m_fd p sync fr pos cur acts o outs)) = fst (t_fd p fr pos cur acts (abs o) outs) /\
+  snd (m_fd p sync fr pos cur acts o outs) = snd (t_fd p fr pos cur acts (abs o) outs).
+Proof.
+  induction acts as [|a r IH]; intros p sync fr pos cur o outs Hwf.
+  - cbn [m_fd t_fd].
+    pose proof (nav_refines p _ _ (gr_fseg fr pos cur sync) o Hwf) as H.
+    destruct (nav p (g_fseg fr pos cur sync) o) as [[o1 x] b].
+    destruct (tnav p (tg_fseg fr pos cur) (abs o)) as [t1 y].
+    cbn [fst3 fst snd] in H. destruct H as (Hw1 & Ha1 & Hx). subst t1 y.
+    destruct x; try (destruct fr; cbn [fst snd]; (split; [exact Hw1|split; reflexivity]));
+      cbn [fst snd]; (split; [exact Hw1|split; reflexivity]).
+  - destruct a; cbn [m_fd t_fd]; try (apply IH; exact Hwf).
+    pose proof (nav_refines p _ _ (gr_fseg fr pos cur true) o Hwf) as H.
+    destruct (nav p (g_fseg fr pos cur true) o) as [[o1 x] b].
+    destruct (tnav p (tg_fseg fr pos cur) (abs o)) as [t1 y].
+    cbn [fst3 fst snd] in H. destruct H as (Hw1 & Ha1 & Hx). subst t1 y.
+    destruct x; try (destruct fr; [cbn [fst snd]; (split; [exact Hw1|split; reflexivity])|apply IH; exact Hw1]);
+      apply IH; exact Hw1.
+Qed.
+
 Lemma step_refines o a : wf o ->
   wf (fst (m_step flags_off o a)) /\
   abs (fst (m_step flags_off o a)) = fst (t_step (abs o) a) /\
@@ -778,6 +809,7 @@ Proof.
   - apply gr_stat.
   - apply gr_list.
   - apply gr_read.
+  - apply fd_refines. exact Hwf.
 Qed.
 
 Lemma run_refines ops : forall o, wf o ->
